@@ -218,6 +218,8 @@ def ref_load(spec, datum, strict: bool, env):  # noqa: C901, PLR0911, PLR0912, P
                     return _U  # equal but differently typed (1.0 for 1, True for 1 under lax ...)
         if isinstance(datum, (enum.Enum, bytes)) and any(_eq(datum, v) for v in vals):
             return _U  # the member itself instead of its representation
+        if any(_eq(datum, v) for v in bytes_vals):
+            return _U  # equal but differently typed, as above (bytearray(b'a') == b'a')
         if len(hits) > 1:
             return _U  # "could be interpreted as several Literal members, the result will be undefined"
         if len(hits) == 1:
